@@ -1,7 +1,8 @@
 (* Props_C12.v — property C12: ONLY theorem statements, each closed by [exact] of a lemma of
-   C12_Proofs*, followed by Print Assumptions.  assoc_step / links / find_ids / run are the functions
-   C12_Check.check_case evaluates against real gorm on every run. *)
-From Verif Require Import Base C12_Model C12_Proofs C12_Proofs2 C12_Proofs3 C12_Proofs4 C12_Proofs5 C12_Proofs6.
+   C12_Proofs*, followed by Print Assumptions.  run_e / assoc_step_e (C12_Elems: the objects a call
+   passes) and assoc_step / links / find_ids / others / run (C12_Model: their primary keys) are the
+   functions C12_Check.check_case evaluates against real gorm on every run. *)
+From Verif Require Import Base C12_Model C12_Elems C12_Proofs C12_Proofs2 C12_Proofs3 C12_Proofs4 C12_Proofs5 C12_Proofs6 C12_Proofs7 C12_Proofs8.
 Open Scope Z_scope.
 
 (* has one / has many / polymorphic has many, struct handle or slice handle of any size, scoped or
@@ -118,6 +119,72 @@ Theorem c12_belongs_count_find : forall os s, wf_bt os s -> tgt_ok os s ->
 Proof. exact bt_find. Qed.
 Print Assumptions c12_belongs_count_find.
 
+(* ---- the calls as Go makes them: objects, with whatever their foreign-key field holds in memory, and
+   arguments that are elements of the owner's own relation field (C12_Elems, evaluated by check_case) ----
+   ONE operation on objects is the operation of C12_Model on their primary keys: for EVERY argument list,
+   whatever key a passed object carries in memory (unset, another owner's) and whichever arguments are
+   references into the field (they name the records the field held when the call was made, in any order) *)
+Theorem c12_objects_step : forall k os e u eo,
+  to_st (assoc_step_e k os e (u, eo)) = assoc_step k os (to_st e) (u, erase_op (e_mem e) eo).
+Proof. exact step_refines. Qed.
+Print Assumptions c12_objects_step.
+
+(* ... any history: the tables and the in-memory ids after a history of calls on objects are those of
+   the erased history *)
+Theorem c12_objects_history : forall k os ops e,
+  to_st (final_e k os e ops) = final k os (to_st e) (erase_hist k os e ops) /\
+  map to_st (run_e k os e ops) = map fst (run k os (to_st e) (erase_hist k os e ops)).
+Proof. exact objects_history. Qed.
+Print Assumptions c12_objects_history.
+
+(* so the links stored after a history of calls on objects are what the finite-set reading of the calls
+   defines (has one / has many; the other kinds follow in the same way from c12_objects_history) *)
+Theorem c12_has_links_objects : forall k os, is_has k -> forall eops e A,
+  wf_has os (to_st e) -> hist_ok k os (to_st e) (erase_hist k os e eops) -> length A = length os ->
+  (forall i o, nth_error os i = Some o -> seteq (links k (to_st e) o) (nth i A [])) ->
+  let e' := final_e k os e eops in
+  wf_has os (to_st e') /\
+  (forall i o, nth_error os i = Some o ->
+     seteq (links k (to_st e') o) (nth i (spec_run k (erase_hist k os e eops) A) [])).
+Proof. exact has_history_e. Qed.
+Print Assumptions c12_has_links_objects.
+
+(* the in-memory value names the same link as the stored one: after any history, admissible or not,
+   every element a has-one / has-many field holds carries ITS OWNER's key in its foreign-key field *)
+Theorem c12_has_memory_keys : forall k os, is_has k -> forall ops e,
+  keys_ok os e -> keys_ok os (final_e k os e ops).
+Proof. exact keys_history. Qed.
+Print Assumptions c12_has_memory_keys.
+
+(* ---- only the links of THIS relation and handle change ----
+   has one / has many: after one operation the links of the same table that do not belong to the handle
+   (other owners; rows of another polymorphic owner type) are those of before, minus the links of the
+   targets given to the handle - the clause C12_Check.step_ok evaluates on the observed snapshots *)
+Theorem c12_has_others_step : forall k os, is_has k -> forall u o s,
+  wf_has os s -> op_ok_has k os s o ->
+  forall p, In p (others k os (assoc_step k os s (u, o))) <->
+            In p (others k os s) /\ ~ In (fst p) (List.concat (op_values o (length os))).
+Proof. exact has_others_step. Qed.
+Print Assumptions c12_has_others_step.
+
+(* ... histories of any length: a link of an outside owner survives exactly when its target is never
+   given to the handle *)
+Theorem c12_has_others_history : forall k os, is_has k -> forall ops s,
+  wf_has os s -> hist_ok k os s ops ->
+  forall p, In p (others k os (final k os s ops)) <-> In p (others k os s) /\ ~ In (fst p) (given_hist os ops).
+Proof. exact has_others_history. Qed.
+Print Assumptions c12_has_others_history.
+
+(* many2many / belongs to: EVERY history, admissible or not, scoped or Unscoped, leaves the join rows /
+   foreign keys of the owners outside the handle exactly as they were (the very list) *)
+Theorem c12_m2m_others : forall os ops s, others KM2M os (final KM2M os s ops) = others KM2M os s.
+Proof. exact m2m_others_history. Qed.
+Print Assumptions c12_m2m_others.
+
+Theorem c12_belongs_others : forall os ops s, others KBelongs os (final KBelongs os s ops) = others KBelongs os s.
+Proof. exact bt_others_history. Qed.
+Print Assumptions c12_belongs_others.
+
 (* where the code departs from the property (each reproduced on real gorm, corpus/C12) *)
 Theorem c12_refuted_m2m_slice_replace :
   let s := final KM2M [1; 2] m2m_init [(false, OAppend [[11]; [12]]); (false, OReplace [[12]; [11]])] in
@@ -161,3 +228,20 @@ Example c12_belongs_unscoped_replace_same :
   let s := final KBelongs [1] bt_init [(false, OAppend [[11]]); (true, OReplace [[11]])] in
   links KBelongs s 1 = [11] /\ tgt s = [11; 12] /\ find_ids KBelongs [1] s = [11].
 Proof. exact belongs_unscoped_replace_same. Qed.
+
+(* a record that carries owner 1's key in memory is appended to owner 2: stored link, Find and the
+   in-memory element all name owner 2, owner 1 keeps its other record *)
+Example c12_moved_record :
+  let e := mk_est [(11, Some 1); (12, Some 1)] [] [] [[]] in
+  let e' := final_e KHasMany [2] e [(false, EAppend [[AObj 11 (Some 1)]])] in
+  links KHasMany (to_st e') 2 = [11] /\ links KHasMany (to_st e') 1 = [12] /\
+  find_ids KHasMany [2] (to_st e') = [11] /\ e_mem e' = [[(11, Some 2)]].
+Proof. exact moved_record. Qed.
+
+(* Replace(&o.Rel[2], &o.Rel[0]): exactly those two records stay *)
+Example c12_replace_by_own_elements :
+  let e := mk_est [(10, Some 1); (11, Some 1); (12, Some 1)] [] [] [[(10, Some 1); (11, Some 1); (12, Some 1)]] in
+  let e' := final_e KHasMany [1] e [(false, EReplace [[ARef 2; ARef 0]])] in
+  links KHasMany (to_st e') 1 = [10; 12] /\ e_mem e' = [[(12, Some 1); (10, Some 1)]] /\
+  erase_hist KHasMany [1] e [(false, EReplace [[ARef 2; ARef 0]])] = [(false, OReplace [[12; 10]])].
+Proof. exact replace_by_own_elements. Qed.
